@@ -60,10 +60,31 @@ def enclosing_decl(path, line):
 
 REFINE_MODULE = "RdsProps.Refinement"
 
+def untranslated_beyond_design():
+    """functions the translator could not handle on the current tree, beyond the by-design list"""
+    path = os.path.join(LEAN, "RdsC", "Translated.lean")
+    try:
+        text = open(path).read()
+    except OSError:
+        return [("?", "Translated.lean missing")]
+    m = re.search(r"def untranslated : List \(String × String\) :=\s*\[(.*?)\]\s*\n\n", text, re.S)
+    if not m:
+        return [("?", "untranslated list not found")]
+    out = []
+    for name, reason in re.findall(r'\("([^"]*)",\s*"((?:[^"\\]|\\.)*)"\)', m.group(1)):
+        if not reason.startswith("by design"):
+            out.append((name, reason))
+    return out
+
 def check(ctx, locked=True):
-    """build the refinement module; returns dict(status=ok|broken|absent, broken=[{decl, file, owners}], log)"""
+    """build the refinement module; returns dict(status=ok|broken|absent|unavailable, broken=[{decl, file, owners}], log)"""
     if not os.path.exists(os.path.join(LEAN, "RdsProps", "Refinement.lean")):
         return {"status": "absent", "broken": []}
+    extra = untranslated_beyond_design()
+    if extra:
+        # the C source now uses a construct outside the translator's subset: T0 cannot speak about these functions on
+        # this tree. That is a limit of the translator, not a broken proof: the tie falls back to T1/T2 for this run.
+        return {"status": "unavailable", "broken": [], "untranslated": [{"function": n, "reason": r} for n, r in extra][:20]}
     ok, out, dt = infra.lake_build([REFINE_MODULE], locked=locked)
     res = {"status": "ok" if ok else "broken", "broken": [], "build_s": round(dt, 1)}
     if ok:
